@@ -144,11 +144,13 @@ def observe(recipes: List[Dict[str, Any]]) -> List[Dict[str, str]]:
             res.append({"h": "", "exc": "BUILD:" + type(e).__name__})
             continue
         try:
+            common.arm(30)
             res.append({"h": dds_hash(v), "exc": ""})
         except DDSException as e:
             res.append({"h": "", "exc": "DDS:%s" % (e.error_code.name if e.error_code is not None else "None")})
         except BaseException as e:
             res.append({"h": "", "exc": "%s" % type(e).__name__})
+    common.disarm()
     return res
 
 
